@@ -71,7 +71,7 @@ def phi_1D(xx, nu=1.0, theta0=1.0, gamma=0, h=0.5, theta=None, beta=1, deme_ids=
     # Evaluate the denominator integral.
     integrand = lambda xi: numpy.exp(-4*gamma*h*xi - 2*gamma*(1-2*h)*xi**2
                                      - Qadjust)
-    int0, eps = scipy.integrate.quad(integrand, 0, 1, epsabs=0,
+    int0, eps = scipy.integrate.quad(integrand, 0, 1, epsabs=0, limit=500,
                                      points=numpy.linspace(0,1,41))
 
     ints = numpy.empty(len(xx))
@@ -80,7 +80,7 @@ def phi_1D(xx, nu=1.0, theta0=1.0, gamma=0, h=0.5, theta=None, beta=1, deme_ids=
         # In this case, the prefactor is not divergent, so we can evaluate
         # the numerator as before, using the Qadjust if necessary.
         for ii,q in enumerate(xx):
-            val, eps = scipy.integrate.quad(integrand, q, 1, epsabs=0,
+            val, eps = scipy.integrate.quad(integrand, q, 1, epsabs=0, limit=500,
                                             points=numpy.linspace(q,1,41))
             ints[ii] = val
         phi = numpy.exp(4*gamma*h*xx + 2*gamma*(1-2*h)*xx**2)*ints/int0
